@@ -422,8 +422,81 @@ def run_url(rec, case):
         w.teardown()
 
 
+HEARTBEATS = [(300, 60), (130, 5), (3600, 30), (25, 20), (0.5, 0.25),
+              (60, 120)]
+
+
+def run_heartbeat(rec, case):
+    """A server that announces a large (or tiny) but legal heartbeat and is
+    idle between its PINGs: the client stays connected and answers each PING
+    for several cycles, and once the server goes silent it declares the
+    connection lost within ping_interval + ping_timeout (+ the fixed grace
+    on polling) - not earlier, not later."""
+    kind, transport, (pi, pt) = case['kind'], case['transport'], case['hb']
+    rec.evaluations += 1
+    rec.count('announced_heartbeats')
+    rec.key('hb/%s/%s/%s/%s' % (kind, transport, pi, pt))
+    w = cli.make_world(kind, script={'pi': pi, 'pt': pt}, request_timeout=5)
+
+    def V(key, msg):
+        rec.viol(key, msg + ' | client=%s transport=%s announced '
+                 'pingInterval=%ss pingTimeout=%ss' % (kind, transport, pi,
+                                                       pt), case)
+    try:
+        c, srv = w.cli, w.srv
+        r = c.call('connect', 'http://srv.test/', transports=[transport])
+        w.run_until(lambda: r['done'], 30)
+        if not r['done'] or r['exc'] is not None:
+            V('connect-failed', 'connect: %r' % (r['exc'],))
+            return
+        for cycle in range(3):
+            # the server is idle for a whole interval, then PINGs
+            w.advance(pi)
+            dis = [e for e in c.events if e['ev'] == 'disconnect']
+            if dis:
+                V('idle-connection-dropped-by-client', 'the client declared '
+                  'the connection lost (%r at t=%.3f) while the server was '
+                  'idle for one announced ping interval (cycle %d)' % (
+                      dis[0]['reason'], dis[0]['t'], cycle))
+                return
+            def npongs():
+                return len([x for po in srv.posts
+                            for x in po['body'].split(gen.SEP)
+                            if x[:1] == '3']) + len(
+                    [f for f in srv.frames if isinstance(f['frame'], str)
+                     and f['frame'][:1] == '3'])
+            n0 = npongs()
+            if transport == 'websocket':
+                srv.ws.push('2')
+            else:
+                srv.push('2')
+            w.quiesce()
+            w.advance(min(pt / 2.0, 1))
+            if npongs() != n0 + 1:
+                V('pong-echo', 'PING %d after an idle interval got %d PONGs' %
+                  (cycle, npongs() - n0))
+                return
+        silent_at = w.now
+        srv.silent = True
+        rec.count('silence_bound')
+        bound = pi + pt + 5 + 0.001
+        w.run_until(lambda: any(e['ev'] == 'disconnect' for e in c.events),
+                    bound + 10)
+        dis = [e for e in c.events if e['ev'] == 'disconnect']
+        if not dis:
+            V('silence-not-detected', 'server silent since t=%.3f, no '
+              'disconnect by t=%.3f' % (silent_at, w.now))
+        elif dis[0]['t'] > silent_at + bound:
+            V('silence-detected-late', 'silent since %.3f, detected at %.3f '
+              '> bound %.3f' % (silent_at, dis[0]['t'], silent_at + bound))
+    finally:
+        w.teardown()
+
+
 def dispatch(rec, case):
-    if case.get('url'):
+    if case.get('hb'):
+        run_heartbeat(rec, case)
+    elif case.get('url'):
         run_url(rec, case)
     else:
         run_conversation(rec, case)
@@ -443,6 +516,10 @@ def run_shard(spec):
              for k in range(spec['n'])]
     cases += [{'seed': spec['seed'], 'i': spec['shard'] * 1000000 + k,
                'url': True} for k in range(spec['nu'])]
+    if spec['shard'] == 0:
+        cases += [{'hb': list(hb), 'kind': k, 'transport': tr}
+                  for hb in HEARTBEATS for k in 'TA'
+                  for tr in ('polling', 'websocket')]
     scen.run_cases(rec, cases, dispatch)
     return rec.result()
 
